@@ -433,7 +433,7 @@ def vec_remove(ex, args):
     v = vec_of(args[0]); i = ex.concretize(args[1], 0, len(v.items) - 1); return v.items.pop(i)
 
 
-@model(r'(?:std::vec::)?Vec::<.*>::(first|last)')
+@model(r'(?:std::vec::)?Vec::<.*>::(first|last)(?:_mut)?')
 def vec_first(ex, args, m):
     v = vec_of(args[0])
     if not v.items: return none()
@@ -479,7 +479,7 @@ def slice_iter(ex, args, m):
     s = as_slice(args[0]); return SeqIter([Ref(s.vec.items, i) for i in range(s.lo, s.hi)])
 
 
-@model(r'(?:core::slice::|std::slice::)?<impl \[.*\]>::(first|last)')
+@model(r'(?:core::slice::|std::slice::)?<impl \[.*\]>::(first|last)(?:_mut)?')
 def slice_first(ex, args, m):
     s = as_slice(args[0])
     if len(s) == 0: return none()
@@ -1237,3 +1237,15 @@ def lib_clone(ex, args): return clone_val(deref(args[0]))
 @model(r'<\[.*\] as ToOwned>::to_owned|(?:core::slice::|std::slice::|alloc::slice::)?<impl \[.*\]>::to_owned')
 def slice_to_owned(ex, args):
     s = as_slice(args[0]); return VecV([clone_deep(ex, x) for x in s.elems()])
+
+
+@model(r'<&?(u8|u16|u32|u64|usize|i8|i16|i32|i64|isize) as (?:std::ops::)?(Add|Sub|Mul)<&?(?:u8|u16|u32|u64|usize|i8|i16|i32|i64|isize)>>::(add|sub|mul)')
+def prim_arith_ref(ex, args, m):
+    a = deref(args[0]); b = deref(args[1]); op = m.group(2); lo, hi = INT_RANGE[m.group(1)]
+    if is_sym(a) or is_sym(b): a = zint(a); b = zint(b)
+    r = a + b if op == 'Add' else (a - b if op == 'Sub' else a * b)
+    if isinstance(r, int):
+        if not (lo <= r <= hi): ex.panic('arithmetic overflow in %s' % m.group(0))
+        return r
+    ex.oblige(z3.And(r >= lo, r <= hi), 'overflow', 'arithmetic overflow in %s' % m.group(0))
+    return simp(r)
